@@ -62,7 +62,7 @@ def part_a(ctx, rng, n):
         kind = rng.choice(["BTree", "TreeSet", "Bucket", "Set"])
         fn = rng.choice(ALL_FAMS)
         impl = rng.choice(["C", "Py"])
-        mode = rng.choice({"O": ["none-int", "str", "int"]}.get(fn[0], [None, "extreme"] if fn != "fs" else [None]))
+        mode = rng.choice({"O": ["none-int", "str", "int"]}.get(fn[0], [None, "extreme"]))
         env = TreeEnv(fn, kind, impl, mode)
         ml, mi = rng.choice([(2, 2), (2, 2), (2, 3), (3, 3), (4, 4), (1, 2)])
         calls = gen_history(rng, kind, rng.choice([8, 20, 40, 60]), rng.choice([20, 60, 100]), avoid0=(mode == "none-int"))
